@@ -641,3 +641,39 @@ Proof.
   - congruence.
   - split; [reflexivity|]. congruence.
 Qed.
+
+(* ------------------------------------------------------------------------------------------ *)
+(* the three entry points of main.rego (report / aggregate / aggregate_report)                  *)
+
+(* a rule that ignored_rule says is off is never evaluated: no entry point, bundled or custom,
+   whatever file, notices or supplied aggregates *)
+Lemma ignored_rule_never_fires custom b p merged cat title excluded noticed supplied :
+  ignored_rule p (entry_of merged cat title) cat title = true ->
+  branch_gate custom b p merged cat title excluded noticed supplied = false.
+Proof.
+  intros Hi.
+  unfold branch_gate, builtin_can_report, builtin_can_aggregate, builtin_can_aggregate_report,
+    custom_can_report, custom_can_aggregate, custom_can_aggregate_report, rules_to_run_has.
+  rewrite Hi.
+  destruct custom, b, (entry_of merged cat title), supplied, excluded, noticed; reflexivity.
+Qed.
+
+(* for a file that is not excluded, a rule without notices and with its key among the supplied
+   aggregates, the three entry points are gated alike *)
+Lemma branch_gates_agree custom b p merged cat title :
+  branch_gate custom b p merged cat title false false true
+  = branch_gate custom BReport p merged cat title false false true.
+Proof.
+  unfold branch_gate, builtin_can_report, builtin_can_aggregate, builtin_can_aggregate_report,
+    custom_can_report, custom_can_aggregate, custom_can_aggregate_report.
+  destruct custom, b; simpl; rewrite ?andb_true_r; reflexivity.
+Qed.
+
+(* a custom aggregate_report never runs for a rule whose key is not among the supplied aggregates,
+   and with the key supplied it runs exactly when the rule's `aggregate` may run *)
+Lemma custom_aggregate_report_gate p merged cat title excluded supplied :
+  custom_can_aggregate_report p merged cat title excluded supplied
+  = supplied && custom_can_aggregate p merged cat title excluded.
+Proof.
+  unfold custom_can_aggregate_report, custom_can_aggregate. rewrite andb_assoc. reflexivity.
+Qed.
